@@ -63,6 +63,12 @@ CHECKS = {
          "Bytes: 5 skeletons (incl. a declaration beyond the 1024-byte prescan window) x 7 text probes x 6 ASCII-compatible encodings x optional-tag omission x walker: render(encoding) succeeds, the parser with no hints reports that encoding and builds the same tree as from the unencoded serialization.",
     note="NOT APPLICABLE dimension: str.encode / codecs / decoders are C code - the byte level is executed on representatives, not closed symbolically over characters or encodings. Known findings: sanitize=True escapes the injected meta; utf-16 output. " + NOTE_COMMON,
     design="§3 C15"),
+ "C06": dict(
+    technique="bounded symbolic execution (CrossHair/z3): the real meta prescan against an independent transcription of the standard's prescan (R3) on byte strings composed by symbolic index; the real determineEncoding / changeEncoding / parser on BOM x argument x declaration assignments chosen by symbolic index",
+    text="Prescan: for every sequence of <= 2 (quick) / 3 (thorough) well-formed markup units out of 30 (comments hiding a meta, quoted '>' and meta-looking attribute values, end tags, doctype, PI, text, every declaration form / quote style / attribute order / label kind incl. UTF-16 and invalid labels) joined by each kind of whitespace, every whitespace kind at every gap of 4 meta skeletons, and a declaration at every offset 1000..1030: detectEncodingMeta equals R3. "
+         "Precedence: BOM (6 kinds) x override/transport/parent/likely/default in {absent, valid, invalid, UTF-16 label} x 4 in-window declarations x 4 late declarations (charset, pragma, UTF-16): the stream's (encoding, confidence), the parser's documentEncoding after a possible restart, and tree == tree of the bytes decoded with the reported encoding follow the documented order; a certain encoding is never changed.",
+    note="Bytes cannot be symbolic under CrossHair: inputs are chosen by symbolic index and run concretely (data-independence from representatives to all byte values assumed). NOT APPLICABLE dimension: decoding (C codecs). Malformed-markup prescan deviations are one listed known finding (9 minimal inputs). chardet absent. " + NOTE_COMMON,
+    design="§3 C06"),
  "C02": dict(
     technique="bounded symbolic execution (CrossHair/z3) of the real tokenizer state methods from catalogue pre-states on a symbolic continuation of arbitrary Unicode characters, differentially against an independent transcription of the WHATWG tokenizer (R1)",
     text="For every state method of the live HTMLTokenizer class (catalogue rebuilt from /repo at check time: 119 pre-states over 7 configurations = 5 start states x last start tag x CDATA allowed/not) the real tokenizer is run from that pre-state on EVERY string of <= 2 (quick) / 3 (thorough) Unicode characters followed by end of input, "
